@@ -14,9 +14,9 @@ ENTRIES = [(H.HYP, q) for q in (
 
 def run(ctx):
     ctx.do(H.rule_x1x2)
-    ctx.do(S.rule_ax1, [S.CORE, H.HYP])
+    ctx.do(S.rule_ax1, [S.CORE, H.HYP], scope=ctx.scope(ENTRIES))
     ctx.do(SI.rule_x3)
-    ctx.do(SI.rule_pt1, [SI.HYP])
+    ctx.do(SI.rule_pt1, [SI.HYP], scope=ctx.scope(ENTRIES))
     ctx.do(u1, ENTRIES, min_functions=15)
     ctx.r.assume("that centre/radius/angles describe the true geodesic, "
                  "orthogonality to the boundary and horosphere tangency are "
